@@ -294,6 +294,9 @@ def shard(ctx):
     out.exhaustive = False  # the Hypothesis part below is sampled
     hyp_search(out, ctx["known"], case_strategy(), evaluate, p["hyp"], ctx["seed"])
     out.extra["exhaustive_part"] = f"all in-domain histories, offsets 0..{p['n']}, depth <= {p['depth']}"
+    from .. import fuzz
+
+    fuzz.thorough_stage("C18", ctx, out)
     return out
 
 
